@@ -348,6 +348,18 @@ Theorem product_space_operator_in_place :
     ext s s' outs /\ wf_store s'.
 Proof. exact pso_ip_ok. Qed.
 Print Assumptions product_space_operator_in_place.
+(* T1  the same through Operator.__call__: membership checks pass and the RETURNED object is y
+   (its very parts) *)
+Theorem product_space_operator_call_in_place :
+  forall (junk : nat -> nat -> option R) ro doms rans xs outs xd (se : list sent) (s : @store (option R)),
+  Forall (ent_ok ro doms rans) se -> outs_static ro rans xs outs -> args_ok ro doms xs xd s ->
+  (forall i o ri, nth_error outs i = Some o -> nth_error rans i = Some ri -> exists d, rd s o = Some (ri, d)) ->
+  (forall o, In o outs -> zero_safe s o) ->
+  exists s', pso_call junk (map fst se) doms rans xs (Some outs) s = Ok outs s' /\
+    (forall i o ri, nth_error outs i = Some o -> nth_error rans i = Some ri ->
+        rd s' o = Some (ri, cl (ip_rows rans xd se i))) /\
+    ext s s' outs /\ wf_store s'.
+Proof. exact pso_call_in_place. Qed.
 (* T1  and the two row formulas are the same lists of reals *)
 Theorem product_space_operator_modes_agree :
   forall rans xd (se : list sent),
